@@ -40,11 +40,11 @@ func init() {
 		Explanation: "Decided: (R1) every path of the restart step (success and failure) resumes the mailbox; (R2) the termination path resumes it; (R3) the resume decision and both graceful decisions broadcast the resume command to every target along the escalation chain, after the poison message; the broadcast visits every chained context and every target exactly once; " +
 			"(R4) every decision value takes a branch (shared with C08.R4); (R5) zombie: behaviour replaced by the empty one, the restart-failure path tells nobody, a zombie passes the kill CAS, the zombie release path runs the termination cleanup; (R6) a paused mailbox neither spins nor misses the resume: the consumer exits only with the system queue observed empty after the release, re-arms only for eligible work, and Resume wakes (C01.R2/R7/R8). " +
 			"(R10) the supervisor pauses its targets before it sends the directive; a target that ignores the directive (CAS running→killing lost) is not un-paused by the restart step or by its termination: a zombie resumes its own mailbox on the ignored-Restart path (F31, fixed); an actor that is already stopping neither forwards an ignored immediate Kill to its children nor resumes them on an ignored Restart, so a failed child whose failure was escalated by a stopping supervisor stays paused forever and Stop times out (F33, KNOWN FINDING, not repaired). " +
-			"(R8) truth table of the restart step over the results of its hooks: whenever an executed hook reported failure the step marks the actor a zombie and never returns it to running, whatever the other hooks report; (R9 = C01.R6) user messages are popped only under a fresh not-paused observation after every handler call, so mail queued behind a failing message stays queued for the restarted / resumed incarnation. (R7, addition) apply-decision records its targets on every path before acting (an escalated failure is resumed by the level above only through this record); (R11 = C06.R5) a child spawned while the actor is dying is killed at once, so a restart that waits for the child count to reach zero completes. (R12 = C05.R7) a restart hook that panics counts as failed; (R13) in the command handler the pause / resume case calls the mailbox operation on every path — the command is obeyed whatever the actor's state; (R14 = C08.R4) each directive does what it says and an escalation travels as a system message. NOT decided: delivery order of the surviving queue at run time, concurrent sibling failures.",
+			"(R8) truth table of the restart step over the results of its hooks: whenever an executed hook reported failure the step marks the actor a zombie and never returns it to running, whatever the other hooks report; (R9 = C01.R6) user messages are popped only under a fresh not-paused observation after every handler call, so mail queued behind a failing message stays queued for the restarted / resumed incarnation. (R7, addition) apply-decision records its targets on every path before acting (an escalated failure is resumed by the level above only through this record); (R11 = C06.R5) a child spawned while the actor is dying is killed at once, so a restart that waits for the child count to reach zero completes. (R12 = C05.R7) a restart hook that panics counts as failed; (R13) in the command handler the pause / resume case calls the mailbox operation on every path — the command is obeyed whatever the actor's state; (R14 = C08.R4) each directive does what it says and an escalation travels as a system message. (R3, addition) the resume broadcast follows a restart directive ONLY in its graceful form: from the IsRestart edge no path avoiding the IsGraceful outcome reaches it — a plain restart keeps the target paused until its restart step resumes it in state running; an early resume lets a target that waits for its children in state killing pop and dead-letter its user mail. NOT decided: delivery order of the surviving queue at run time, concurrent sibling failures.",
 		Rules: []Rule{
 			{ID: "C09.R1", Min: 1, Desc: "restart step resumes on every path", Fn: c09RestartResumes},
 			{ID: "C09.R2", Min: 2, Desc: "termination resumes; zombie resumes", Fn: c03Parked},
-			{ID: "C09.R3", Min: 5, Desc: "resume broadcast along the escalation chain, after the poison message", Fn: c09Broadcast},
+			{ID: "C09.R3", Min: 6, Desc: "resume broadcast along the escalation chain, after the poison message", Fn: c09Broadcast},
 			{ID: "C09.R4", Min: 1, Desc: "every decision takes a branch", Fn: c08Exhaustive},
 			{ID: "C09.R5", Min: 4, Desc: "zombie discipline", Fn: c09Zombie},
 			{ID: "C09.R8", Min: 4, Desc: "a failed restart hook decides: zombie, whatever later hooks return", Fn: c09HookDecides},
@@ -1006,6 +1006,20 @@ func c09Broadcast(p *Program, r *Report) {
 		}
 		r.Check(okG && found, d.name+" resumes the paused targets after sending the poison message", firstPos(g, bcast), "on the IsGraceful edge of this directive every path broadcasts the resume command, and only after the poison messages were told (so they are queued behind the pending user mail and the mailbox runs again)")
 	}
+	// … and ONLY the graceful form: a plain restart travels as a system message and keeps the mailbox paused until the restart
+	// step itself resumes it in state running. A target that has children answers the restart by waiting for them in state
+	// killing; a resume command arriving then un-pauses the mailbox, and every user message (stream events for a subscriber
+	// that keeps its subscriptions across the restart) is popped and dead-lettered instead of waiting for the new instance.
+	okP := len(rT) > 0
+	var starts []int
+	for e := range rT {
+		starts = append(starts, e.to)
+	}
+	// paths through the restart directive that avoid the graceful outcome must not reach the resume broadcast
+	if okP && anyOf(g.Reach(starts, nil, gr), bcast) {
+		okP = false
+	}
+	r.Check(okP, "plain restart is not followed by the resume broadcast", firstPos(g, bcast), "from the IsRestart edge no path that avoids the IsGraceful outcome reaches the broadcast of the resume command: the mailbox of a restarting target stays paused until its restart step resumes it")
 }
 
 // resumeCommand: v is <command constant>.Build() with the resume command.
